@@ -161,6 +161,12 @@ func Guard(f func() string) (out string) {
 	defer func() {
 		if r := recover(); r != nil {
 			msg := fmt.Sprint(r)
+			if strings.HasPrefix(msg, "VERIF-UNAVAILABLE") {
+				// a stub of an auxiliary add-only export (build without the tag verifint: the unexported helper it wraps
+				// no longer exists under that name); check/lib.py skips such cases of a degraded build
+				out = "UNAVAILABLE"
+				return
+			}
 			kind := "other"
 			switch {
 			case strings.Contains(msg, "slice bounds out of range"):
